@@ -318,6 +318,7 @@ SPECS["C17"] = dict(
                  "first link target ranges over 16 relative/absolute/outside/dot-dot/dangling/cyclic/collection/secret forms plus '/out/'+2 symbolic bytes over {. / a d}+'/x'; a second link inside a subdirectory over 4 forms",
                  "expected output per link form written by hand from the statement (container-namespace resolution)"],
     runs=[
-        dict(name="copy", pkg="lib/crunchrun", harness=["crunchrun/c17_copier.go"], entry="GosymH_C17_copy", replay="engine", witnesses=["copied", "copy-refused"]),
+        dict(name="copy", pkg="lib/crunchrun", harness=["crunchrun/c17_copier.go"], entry="GosymH_C17_copy", replay="engine", witnesses=["copied", "copy-refused"],
+             max_steps=400000, unwind_violation=True, bound="a copy that does not finish within 400000 interpreted instructions (the unchanged tree needs < 40000) is reported as following links forever"),
     ],
 )
